@@ -33,7 +33,7 @@ def circ_matrix(c, n):
     U = np.eye(2 ** n, dtype=complex)
     for op in c.operations:
         q = tuple(op.qubit_indices)
-        require(len(set(q)) == len(q) and all(0 <= i < n for i in q), lambda: f"operation {op} outside the {n}-qubit support of the Hamiltonian")
+        require(len(set(q)) == len(q) and len(q) == op.gate.num_qubits and all(0 <= i < n for i in q), lambda: f"operation {op} outside the {n}-qubit support of the Hamiltonian")
         U = ref.embed(ref.npm(op.gate.matrix), q, n) @ U
     return U
 
